@@ -452,7 +452,7 @@ def modelledSites : List Modelled := [
   ⟨"ffcx/ir/representation.py", "_compute_form_ir", "2713f4c593da", identity, "site_object_name", ["site_invariant_object_names"], ""⟩,
   ⟨"ffcx/ir/representation.py", "_compute_form_ir", "b1342fd2f096", identity, "site_object_name", ["site_invariant_object_names"], ""⟩,
   ⟨"ffcx/ir/representation.py", "_compute_expression_ir", "1da7f46d0c67", identity, "site_object_name", ["site_invariant_object_names"], ""⟩,
-  ⟨"ffcx/ir/representation.py", "_compute_expression_ir", "426c2c46fbb3", identity, "site_object_name", ["site_invariant_object_names"], ""⟩,
+  ⟨"ffcx/ir/representation.py", "_compute_expression_ir", "2514999ae870", identity, "site_object_name", ["site_invariant_object_names"], ""⟩,
   ⟨"ffcx/ir/representation.py", "_compute_expression_ir", "c408712d1135", identity, "site_object_name", ["site_invariant_object_names"], ""⟩,
   ⟨"ffcx/ir/representationutils.py", "QuadratureRule.__hash__", "5438a17889c8", hashdef, "IsSetIter",
    ["hash_irrelevant_of_perm_invariant"], "SHA-1 of the point bytes: seed and history independent; dict keys only"⟩,
